@@ -39,7 +39,18 @@ pub fn build_text(c: &Value) -> String {
     }
     lines.push("# Head".into());
     lines.push(String::new());
-    lines.push(format!("{}[t](2){}", s(&c["prefix"]), s(&c["suffix"])));
+    // the link's own text may be non-ASCII ("ltext"); its paragraph may have a second line
+    // ("wrap"), long enough to lie under / over the link's columns
+    let ltext = if c["ltext"].is_array() { s(&c["ltext"]) } else { "t".to_string() };
+    let ltext = if ltext == "a" { "t".to_string() } else { ltext };
+    let wrap = c["wrap"].as_str().unwrap_or("none");
+    if wrap == "before" {
+        lines.push("z".repeat(30));
+    }
+    lines.push(format!("{}[{}](2){}", s(&c["prefix"]), ltext, s(&c["suffix"])));
+    if wrap == "after" {
+        lines.push("z".repeat(30));
+    }
     lines.push(String::new());
     lines.push("[r](2)".into());
     lines.push(String::new());
